@@ -322,7 +322,9 @@ def run_check(prop_id, tier="quick", seed=0, only_shards=None):
         else:
             d = os.path.join(VERIF_ROOT, "replay", prop_id)
             os.makedirs(d, exist_ok=True)
-            path = os.path.join(d, f"{mech}-{jhash(v['witness'])}.json")
+            import re
+            safe = re.sub(r"[^A-Za-z0-9_.+-]", "_", mech)[:80]
+            path = os.path.join(d, f"{safe}-{jhash(v['witness'])}.json")
             with open(path, "w") as f:
                 json.dump({"property": prop_id, "mech": mech, "reason": v["reason"],
                            "tier": tier, "seed": seed, "witness": v["witness"]},
